@@ -704,4 +704,4 @@ def par_filter(line):
     the genome-sized values (they would be rendered and judged a second time: 25 s)"""
     return len(line) < 20000 and (_TIER[0] != "quick" or _re.search(r" r\d+\*s", line) is None)
 
-PARALLEL = {"quick": {"par": 8, "max_cases": 400}, "thorough": {"par": 8, "max_cases": 40000, "race": True}}
+PARALLEL = {"quick": {"par": 8, "max_cases": 400}, "thorough": {"par": 8, "max_cases": 6000, "race": True}}
